@@ -26,7 +26,7 @@ CLAIMS = {
         note="simomp is a model of a conforming OpenMP runtime under sequential consistency; weak-memory effects and libgomp-specific behaviour are out of reach; seeded search, not exhaustive",
         tech="deterministic simulation with seeded scheduler (fibers behind the libgomp ABI), reference-model byte equality, online ordering invariants"),
     "C10": dict(cat="exploration", ref="4/C10",
-        text="At every node completion (KALIGN_VERIF MERGE_END) the node's sub-alignment is snapshotted; at the end of the run the final alignment is projected onto each node's members (all-gap columns removed) and must equal the snapshot, for every internal node of the tree actually used, under the sequential reference and seeded schedules including access-level preemption.",
+        text="At every node completion (KALIGN_VERIF MERGE_END) the node's sub-alignment is snapshotted; at the end of the run the final alignment - both the gap vectors at RUN_END and the rows kalign finally hands out (finalised object after kalign_run, rows returned by kalign()) - is projected onto each node's members (all-gap columns removed) and must equal the snapshot, for every internal node of the tree actually used, under the sequential reference and seeded schedules including access-level preemption.",
         note="snapshot is a 64-bit canonical hash of member ranks and residue columns; nodes above 4M residues are skipped and counted",
         tech="deterministic simulation: seeded schedules + node-completion snapshots vs final projection"),
     "C04": dict(cat="exploration", ref="4/C04",
@@ -58,7 +58,7 @@ def main():
     hook_commits = [l.split(' ')[0] for l in hooks if l.split(' ', 1)[1].startswith('verif hook:')]
     m = {
         "version": 1,
-        "setup_cmd": "python3 vf/build.py plain asan preempt serial && python3 vf/check.py determinism 6",
+        "setup_cmd": "python3 vf/build.py plain asan preempt serial && python3 vf/check.py omptest 45 && python3 vf/check.py determinism 6",
         "hooks": {"guard": "KALIGN_VERIF",
                   "enable": "vf/build.py compiles /repo/lib/src/*.c, src/run_kalign.c, src/parameters.c with -DKALIGN_VERIF for every variant; the callback pointer kalign_verif_cb is defined by the harness (sim/hooks.c)",
                   "baseline_off_cmd": "cmake -G Ninja -S /repo -B /repo/_build >/dev/null && cmake --build /repo/_build >/dev/null && ctest --test-dir /repo/_build -j8 --timeout 900",
